@@ -359,7 +359,7 @@ class ScanAnalysis:
         if ast.unparse(v) == "self.name":
             env[name] = ("selfname",)
             return
-        if isinstance(v, ast.Call) and isinstance(v.func, ast.Name) and v.func.id == "range":
+        if isinstance(v, ast.Call) and isinstance(v.func, ast.Name) and v.func.id in ("range", "enumerate", "reversed"):
             env[name] = ("range", v, dict(env))
             return
         try:
@@ -450,6 +450,28 @@ class ScanAnalysis:
         renv = env
         if isinstance(it, ast.Name) and isinstance(env.get(it.id), tuple) and env[it.id][0] == "range":
             _, it, renv = env[it.id]
+        # element iteration newest-first:  for [age,] x in [enumerate(]reversed(S)[)]   ==   for i in range(len(S)-1, -1, -1): x = S[i] [; age = len(S)-1-i]
+        def _is(e, fn_):
+            return isinstance(e, ast.Call) and isinstance(e.func, ast.Name) and e.func.id == fn_ and len(e.args) == 1 and not e.keywords
+
+        seq, age_name, elem_name = None, None, None
+        if _is(it, "enumerate") and _is(it.args[0], "reversed") and isinstance(st.target, ast.Tuple) and len(st.target.elts) == 2 and all(isinstance(x, ast.Name) for x in st.target.elts):
+            seq, age_name, elem_name = it.args[0].args[0], st.target.elts[0].id, st.target.elts[1].id
+        elif _is(it, "reversed") and isinstance(st.target, ast.Name) and not _is(it.args[0], "range"):
+            seq, elem_name = it.args[0], st.target.id
+        if seq is not None and not st.orelse:
+            import copy as _c
+
+            iv = "idx__scan"
+            ln = ast.Call(func=ast.Name(id="len", ctx=ast.Load()), args=[_c.deepcopy(seq)], keywords=[])
+            last = ast.BinOp(left=ln, op=ast.Sub(), right=ast.Constant(value=1))
+            pre_ = [ast.Assign(targets=[ast.Name(id=elem_name, ctx=ast.Store())], value=ast.Subscript(value=_c.deepcopy(seq), slice=ast.Name(id=iv, ctx=ast.Load()), ctx=ast.Load()), lineno=st.lineno)]
+            if age_name:
+                pre_.append(ast.Assign(targets=[ast.Name(id=age_name, ctx=ast.Store())], value=ast.BinOp(left=_c.deepcopy(last), op=ast.Sub(), right=ast.Name(id=iv, ctx=ast.Load())), lineno=st.lineno))
+            rng = ast.Call(func=ast.Name(id="range", ctx=ast.Load()), args=[_c.deepcopy(last), ast.UnaryOp(op=ast.USub(), operand=ast.Constant(value=1)), ast.UnaryOp(op=ast.USub(), operand=ast.Constant(value=1))], keywords=[])
+            st2 = ast.For(target=ast.Name(id=iv, ctx=ast.Store()), iter=rng, body=pre_ + list(st.body), orelse=[], lineno=st.lineno)
+            ast.fix_missing_locations(st2)
+            return self.loop(st2, renv if renv is not env else env, facts)
         if not (isinstance(st.target, ast.Name) and isinstance(it, ast.Call) and isinstance(it.func, ast.Name) and it.func.id == "range" and not st.orelse):
             raise Unknown(f"loop not modelled: for {ast.unparse(st.target)} in {ast.unparse(it)[:50]}")
         args = it.args
